@@ -154,10 +154,13 @@ def short_contour_model(desc, exc, feats):
     file holding fewer contours than events reports a wrong len(); the export's documented
     limitation to the shortest feature cannot see it and iterating the contours fails with
     KeyError for the first missing entry (= number of stored contours)."""
+    import re
     short = desc.get("short_feature")
-    if short and short[0] == "contour" and isinstance(exc, KeyError) \
+    m = re.search(r"object '(\d+)' doesn't exist", str(exc))
+    if short and short[0] == "contour" and isinstance(exc, KeyError) and m \
             and (feats is None or "contour" in feats) \
-            and f"object '{short[1]}' doesn't exist" in str(exc):
+            and int(m.group(1)) >= short[1]:
+        # the first selected event beyond the stored contours
         return "h5-contour-length-taken-from-event-count"
     return None
 
